@@ -369,6 +369,14 @@ def eval_foreign(c, rec):
         rec.finding('foreign-roundtrip', 'field-values-change/%s/%s' % (name, '+'.join(sorted(diff))[:40]), case, 'fields that differ after re-serialisation: %r' % diff)
     if out2 != out1:
         rec.finding('foreign-roundtrip', 'not-a-fixed-point/%s' % name, case, '%s.. vs %s..' % (out1[:20].hex(), out2[:20].hex()))
+    # a copy of the parsed packet object (copies are what derived keys, copied messages and copied signatures are made of) emits the same octets
+    try:
+        import copy
+        outc = bytes(copy.copy(p1).__bytearray__())
+        if outc != out1:
+            rec.finding('foreign-roundtrip', 'copy-serialises-differently/%s' % name, case, '%s.. vs %s..' % (out1[:20].hex(), outc[:20].hex()))
+    except Exception as e:   # noqa
+        rec.finding('foreign-roundtrip', 'copy-exception/%s/%s' % (name, harness.exc_key(e)), case, repr(e))
     # in-place change of state: a protected secret key that has been unlocked still serialises to the same (protected) packet
     if name in ('seckey', 'seckey-elgamal') and body[len(rkeys.parse_public_body(body)[0].body)] != 0 and hasattr(p1, 'unprotect'):
         try:
